@@ -13,6 +13,7 @@ use std::sync::atomic::{AtomicBool, Ordering::SeqCst};
 use std::sync::Mutex;
 use std::time::Instant;
 
+pub mod poison;
 pub mod worker;
 
 #[derive(Clone, Copy, Debug, PartialEq, Eq)]
